@@ -156,10 +156,14 @@ def read_ndjson(path):
 
 # ----------------------------------------------------------------- findings
 def load_known():
+    import glob
+    out = []
     p = os.path.join(VERIF, "known_findings.json")
-    if not os.path.exists(p):
-        return []
-    return json.load(open(p)).get("findings", [])
+    if os.path.exists(p):
+        out += json.load(open(p)).get("findings", [])
+    for f in sorted(glob.glob(os.path.join(VERIF, "known_findings.d", "*.json"))):
+        out += json.load(open(f)).get("findings", [])
+    return out
 
 
 def classify(prop, keys_with_info):
